@@ -221,7 +221,7 @@ class RunCtx:
         self.live_pools = {id(p): p for p in built.worker_pools.worker_pools}
         ntasks = sum(len(tg.get_nodes()) for tg in built.workload.task_graphs.values())
         total = world["sim"]["loop_timeout"]
-        self.iter_budget = 400 * (ntasks + 10) + 60 * min(total, 100000) + 5000
+        self.iter_budget = min(400 * (ntasks + 10) + 60 * min(total, 100000) + 5000, 25000 + 300 * ntasks)
         self.zeno_limit = 1500 + 60 * ntasks
 
     # ------------------------------------------------------------------ recording
@@ -344,6 +344,8 @@ def _safe(ctx, fn, *a):
     except (Livelock, StepBudget, HarnessError):
         raise
     except BaseException as e:  # noqa
+        if type(e).__name__ in ("RunTimeout", "KeyboardInterrupt", "SystemExit"):
+            raise  # the engine's per-run alarm fired while a callback was running: a timeout, not a bug
         raise HarnessError("".join(traceback.format_exception(type(e), e, e.__traceback__)[-6:]))
 
 
